@@ -299,4 +299,41 @@ def faults():
         ocp.subject_to(ocp.der(s["u"]) <= 1)
         return ocp
     F["derivative-of-a-piecewise-constant-control"] = der_of_control
+
+    # the fault sits in ONE of several stages created from the same template: the sibling's value / rule is no excuse
+    def clone_without_value(kind, valued):
+        def f(m):
+            from rockit import Ocp, Stage
+            tmpl = Stage(T=1.0)
+            x = tmpl.state(); u = tmpl.control()
+            q = tmpl.parameter(grid=kind.rstrip("+"), include_last=kind.endswith("+"))
+            tmpl.set_der(x, ufun("f", 1, [x, u, q]))
+            tmpl.subject_to(x <= q)
+            tmpl.add_objective(tmpl.at_tf(x))
+            tmpl.method(_method(m))
+            ocp = Ocp()
+            clones = [ocp.stage(tmpl, t0=0.0), ocp.stage(tmpl, t0=1.0)]
+            cols = {"": 1, "control": 2, "control+": 3}[kind]
+            clones[valued].set_value(q, ca.DM([[1.5] * cols]))        # the OTHER clone never gets a value
+            ocp.solver("ipopt")
+            return ocp
+        return f
+    for kind in ("", "control", "control+"):
+        for valued in (0, 1):
+            F["clone-%d-of-2-without-%s-parameter-value" % (1 - valued, kind or "global")] = clone_without_value(kind, valued)
+
+    def clone_rule_cleared(m):
+        from rockit import Ocp, Stage
+        tmpl = Stage(T=1.0)
+        x = tmpl.state(); y = tmpl.state(); u = tmpl.control()
+        tmpl.set_der(x, ufun("f", 1, [x, y, u]))
+        tmpl.add_objective(tmpl.at_tf(x))
+        tmpl.method(_method(m))
+        ocp = Ocp()
+        a = ocp.stage(tmpl, t0=0.0)
+        tmpl.set_der(y, ufun("g", 1, [x, y, u]))       # given to the template AFTER the first clone was made
+        b = ocp.stage(tmpl, t0=1.0)
+        ocp.solver("ipopt")
+        return ocp
+    F["clone-made-before-the-template-got-its-last-derivative"] = clone_rule_cleared
     return F
